@@ -383,10 +383,11 @@ CANDIDATES = {
     "C17": K1Spec("C17", ["C17"], extra=[lambda prop, tier, seed: KBufSpec(["C17"], ["C17"])._run("C17", seed, 32 if tier == "quick" else 1500, 40),
                                            lambda prop, tier, seed: KBufSpec(["C17cap"], ["C17"])._run("C17cap", seed + 3, 32 if tier == "quick" else 1500, 40)]),
     "C05": KBufSpec(["C05", "C05cap"], ["C05", "C15-zero", "C15-capacity"], findings=("D19",),
-                    extra=[lambda prop, tier, seed: __import__("kbuf").run_c05_diff(prop, tier, seed)]),
+                    extra=[lambda prop, tier, seed: __import__("kbuf").run_c05_diff(prop, tier, seed),
+                           lambda prop, tier, seed: __import__("kbuf").run_buf_faults(prop, tier, seed)]),
     "C06": KBufSpec(["C06", "C06b"], ["C05", "C06"], findings=("D19",)),
     "C07": KBufSpec(["C07", "C07cap"], ["C07", "C15-zero", "C15-capacity"], grid=True),
-    "C15": KBufSpec(["C15", "C05cap"], ["C15"], grid=True),
+    "C15": KBufSpec(["C15", "C05cap"], ["C15"], grid=True, extra=[lambda prop, tier, seed: __import__("kbuf").run_buf_faults(prop, tier, seed)]),
     "C16": K1Spec("MIX", ["C16"], extra=[lambda prop, tier, seed: __import__("k_extra").run_c16(prop, tier, seed)],
                   note="aliasing cannot be expressed inside the functional model; the aliasing oracle mutates every container reachable from arguments and results"),
     "C18": K1Spec("MIX", ["C18"], extra=[lambda prop, tier, seed: __import__("k_extra").run_c18(prop, tier, seed)]),
